@@ -301,6 +301,21 @@ impl Node {
     }
 
     ///
+    /// remove the text of a node from the full text index
+    ///
+    pub fn delete_fts(
+        rowid: i64,
+        text: &str,
+        conn: &Connection,
+    ) -> std::result::Result<(), rusqlite::Error> {
+        let mut delete_fts_stmt = conn.prepare_cached(
+            "INSERT INTO _node_fts (_node_fts, rowid, text) VALUES('delete', ?, ?)",
+        )?;
+        delete_fts_stmt.execute((rowid, text))?;
+        Ok(())
+    }
+
+    ///
     /// Verify the existence of a specific Node
     ///
     ///
@@ -822,6 +837,9 @@ pub struct NodeDeletionEntry {
     //used for synchronisation authorisation
     #[serde(skip)]
     pub entity_name: Option<String>,
+    //the entity is indexed for full text search
+    #[serde(skip)]
+    pub enable_full_text: bool,
 }
 impl NodeDeletionEntry {
     pub fn build(
@@ -841,6 +859,7 @@ impl NodeDeletionEntry {
             verifying_key,
             signature,
             entity_name: None,
+            enable_full_text: false,
         }
     }
 
@@ -915,6 +934,7 @@ impl NodeDeletionEntry {
                 verifying_key: row.get(5)?,
                 signature: row.get(6)?,
                 entity_name: None,
+                enable_full_text: false,
             };
             let size = bincode::serialized_size(&deletion_lo)?;
             let insert_len = len + size + VEC_OVERHEAD;
@@ -978,14 +998,28 @@ impl NodeDeletionEntry {
     ) -> std::result::Result<(), rusqlite::Error> {
         let query = "DELETE FROM _node WHERE room_id=? AND id=?";
         let mut stmt = conn.prepare_cached(query)?;
-        let mut local_stmt = conn.prepare_cached("SELECT mdate FROM _node WHERE room_id=? AND id=?")?;
+        let mut local_stmt = conn
+            .prepare_cached("SELECT mdate, rowid, _json FROM _node WHERE room_id=? AND id=?")?;
         for node in nodes {
-            let local_mdate: Option<i64> = local_stmt
-                .query_row((node.room_id, node.id), |row| row.get(0))
+            let local: Option<(i64, i64, Option<String>)> = local_stmt
+                .query_row((node.room_id, node.id), |row| {
+                    Ok((row.get(0)?, row.get(1)?, row.get(2)?))
+                })
                 .optional()?;
-            if let Some(local_mdate) = local_mdate {
+            if let Some((local_mdate, rowid, json)) = local {
                 //a version more recent than the deleted one is kept, every peer will end with this version
                 if local_mdate <= node.mdate {
+                    //the index entry must not be inherited by a node that would reuse the rowid
+                    if node.enable_full_text {
+                        if let Some(json_str) = json {
+                            if let Ok(value) = serde_json::from_str::<Value>(&json_str) {
+                                let mut text = String::new();
+                                if extract_json(&value, &mut text).is_ok() && !text.is_empty() {
+                                    Node::delete_fts(rowid, &text, conn)?;
+                                }
+                            }
+                        }
+                    }
                     stmt.execute((node.room_id, node.id))?;
                     //the local version can be older than the deleted one
                     daily_log.set_need_update(node.room_id, &node.entity, local_mdate);
